@@ -68,13 +68,14 @@ class Event:
 
 
 class State:
-    __slots__ = ("store", "ctx", "writes", "reads")
+    __slots__ = ("store", "ctx", "writes", "reads", "assumed")
 
     def __init__(self, ranges):
         self.store = {}
         self.ctx = lin.Ctx(ranges)
         self.writes = None
         self.reads = None
+        self.assumed = ()
 
     def fork(self):
         s = State.__new__(State)
@@ -82,6 +83,7 @@ class State:
         s.ctx = self.ctx.copy()
         s.writes = self.writes
         s.reads = self.reads
+        s.assumed = self.assumed
         return s
 
 
@@ -106,9 +108,15 @@ class Engine:
         self.loop_cache = {}
         self.loop_stack = []
         self.body_sets = []
+        self.call_hooks = []   # f(eng, st, fr, bb, base, args, ev, t) before a non-inlined call is modelled
+        self.post_call_hooks = []  # f(eng, st, fr, bb, base, args, ev, t) on each outcome state after the call
+        self.edge_hooks = []   # f(eng, st, fr, bb, target, cond) after a switch edge has been taken
+        self.edge_conds = {}
         self.loop_backs = {}
         self.loop_heads = {}
         self.mem_writes = []
+        self.luf = {}
+        self.sym_consts = {}
         self.links = set()     # pairs of symbols that were compared / derived from one another (relevance only)
         self.thread_entries = {}
         self.thread_pre = {}
@@ -223,6 +231,8 @@ class Engine:
     def lazy_init(self, root, path, ti):
         """deterministic unknown value for an unwritten place"""
         prog = self.prog
+        if root == ("G",):
+            return ICONST(0)
         if ti is None:
             ti = self.static_type(root, path)
         if path and path[-1] == "$len":
@@ -733,6 +743,10 @@ class Engine:
                     r = {"Lt": c < 0, "Le": c <= 0, "Gt": c > 0, "Ge": c >= 0, "Eq": c == 0, "Ne": c != 0}[op]
                     return ICONST(1 if r else 0)
                 self.link(a[1], b[1])
+                if not a[1][1]:
+                    self.note_const(b[1], a[1][0])
+                elif not b[1][1]:
+                    self.note_const(a[1], b[1][0])
                 return ("b", ("cmp", op, a[1], b[1]))
             if a[0] != "i" and b[0] != "i" and op in ("Eq", "Ne"):
                 if a == b:
@@ -1126,6 +1140,9 @@ class Engine:
                 if not self.flag_only(c):
                     return False
             a.ctx.cons = [c for c in ca if c in setb]
+        if a.ctx.hyps != b.ctx.hyps:
+            hb = set(b.ctx.hyps)
+            a.ctx.hyps = [c for c in a.ctx.hyps if c in hb]
         na, nb = a.ctx.neqs, b.ctx.neqs
         if na != nb:
             seta, setb = set(na), set(nb)
@@ -1218,6 +1235,13 @@ class Engine:
                         pass
                     continue
                 if cands is None:
+                    for (root_, path_) in M:
+                        hv = S.store.get(root_, {}).get(path_)
+                        if hv is not None and hv[0] == "i":
+                            for bs in backs:
+                                bv = bs.store.get(root_, {}).get(path_)
+                                if bv is not None and bv[0] == "i":
+                                    self.link(hv[1], bv[1])
                     cands = self.gen_candidates(st_in, fr, M, reads, bodies_seen, backs)
                     n0 = len(cands)
                     cands = [c for c in cands if self.cand_holds(st_in, c)]
@@ -1228,10 +1252,7 @@ class Engine:
                         continue  # re-run assuming them
                     head_state = S
                     break
-                keep = []
-                for c in cands:
-                    if all(self.cand_holds(bs, c) for bs in backs):
-                        keep.append(c)
+                keep = self.local_houdini(S, backs, cands) if not self.opts.get("no_local") else [c for c in cands if all(self.cand_holds(bs, c) for bs in backs)]
                 if len(keep) != len(cands):
                     if self.opts.get("debug_loops"):
                         print("LOOP", body.path, h, "it", it, "dropped", [self.show_cand(c) for c in cands if c not in keep][:40], "backs", len(backs))
@@ -1267,6 +1288,63 @@ class Engine:
             self.loop_backs.setdefault((fr.id, h), []).extend(backs)
             self.loop_heads[(fr.id, h)] = head_state
         return exits
+
+    def tightest(self, cands):
+        best = {}
+        pair_best = {}
+        for c in cands:
+            _, a, b, k = c
+            if a is not None and b is None:
+                key = ("ub", a)
+                if key not in best or k < best[key][3]:
+                    best[key] = c
+            elif a is None and b is not None:
+                key = ("lb", b)
+                if key not in best or k < best[key][3]:
+                    best[key] = c
+            else:
+                key = (a, b)
+                if key not in pair_best or k < pair_best[key][3]:
+                    pair_best[key] = c
+        return list(best.values()) + list(pair_best.values())
+
+    def local_houdini(self, S, backs, cands):
+        """greatest subset of cands that is preserved by the recorded back-edge states, computed without
+        re-executing the loop body: the head assumptions inside each back state are replaced by the
+        current (shrinking) assumption set. The caller re-runs the body afterwards, so paths that
+        were pruned under the stronger assumptions are still re-checked."""
+        assumed = set(getattr(S, "assumed", ()) or ())
+        stripped = []
+        for bs in backs:
+            c2 = bs.ctx.copy()
+            c2.hyps = [c for c in c2.hyps if c not in assumed]
+            stripped.append(c2)
+        A = list(cands)
+        guard = 0
+        while True:
+            guard += 1
+            tight = []
+            for c in self.tightest(A):
+                e = self.cand_expr(S, c)
+                if e is not None:
+                    tight.append(e)
+            fails = set()
+            for bs, base in zip(backs, stripped):
+                ctx2 = base.copy()
+                for e in tight:
+                    ctx2.add_hyp(e)
+                for c in A:
+                    if c in fails:
+                        continue
+                    e = self.cand_expr(bs, c)
+                    self.fm_calls += 1
+                    if e is None or not ctx2.entails(e):
+                        fails.add(c)
+            if self.opts.get("debug_loops"):
+                print("  LOCAL it", guard, "fails", [self.show_cand(c) for c in fails][:30])
+            if not fails or guard > 200:
+                return A
+            A = [c for c in A if c not in fails]
 
     def subtree_differs(self, a, b, root, path):
         da = a.store.get(root, {})
@@ -1332,7 +1410,10 @@ class Engine:
                     d[k] = ("r", ("P", ("phi", fr.id, h, root, k)), (), old[3])
                 else:
                     sti = self.static_type(root, k) if old is None else None
-                    if k and k[-1] in ("$len", "$discr"):
+                    if root == ("G",):
+                        s = self.named(("phi", fr.id, h, root, k), (0, 1))
+                        d[k] = I(lin.var(s))
+                    elif k and k[-1] in ("$len", "$discr"):
                         s = self.named(("phi", fr.id, h, root, k), (0, ISIZE_MAX) if k[-1] == "$len" else (0, 1 << 16))
                         d[k] = I(lin.var(s))
                     elif sti is not None and self.prog.types[sti]["k"] in ("int", "bool", "char"):
@@ -1364,8 +1445,13 @@ class Engine:
             key = (a, b)
             if key not in pair_best or k < pair_best[key][3]:
                 pair_best[key] = c
+        assumed = []
         for c in list(best.values()) + list(pair_best.values()):
-            self.assume_cand(S, c)
+            e = self.cand_expr(S, c)
+            if e is not None:
+                S.ctx.add_hyp(e)
+                assumed.append(e)
+        S.assumed = tuple(assumed)
         return S, symmap
 
     def bounds_type(self, v):
@@ -1399,7 +1485,9 @@ class Engine:
                     found = True
                     if v[0] in ("i", "b"):
                         ints_M.append((root, k))
-            if not found and "E" not in path:
+            if not found and root == ("G",):
+                ints_M.append((root, path))
+            elif not found and "E" not in path:
                 sti = self.static_type(root, path)
                 if (sti is not None and self.prog.types[sti]["k"] in ("int", "bool", "char")) or (path and path[-1] == "$len"):
                     ints_M.append((root, path))
@@ -1424,13 +1512,18 @@ class Engine:
                 cands.append(("le", m, None, 0))
                 cands.append(("le", None, m, -1))
                 continue
-            for c in consts:
+            for c in (self.thresholds(m, st_in, backs) if m[0] != ("G",) else [0, 1]):
                 cands.append(("le", m, None, c))
                 cands.append(("le", None, m, -c))
             for y in Y:
                 if y == m:
                     continue
-                if self.is_bool_place(y[0], y[1]):
+                yb = self.is_bool_place(y[0], y[1])
+                if m[0] == ("G",):
+                    # ghosts are only related to program booleans and other ghosts
+                    if not (yb or y[0] == ("G",)):
+                        continue
+                elif yb or y[0] == ("G",):
                     continue
                 if not self.related(backs, st_in, m, y):
                     continue
@@ -1448,16 +1541,58 @@ class Engine:
                 out.append(c)
         return out
 
+    def lfind(self, x):
+        p = self.luf
+        while p.get(x, x) != x:
+            p[x] = p.get(p[x], p[x])
+            x = p[x]
+        return x
+
     def link(self, ea, eb):
         for sa, _ in ea[1]:
             for sb, _ in eb[1]:
                 if sa != sb:
                     self.links.add((sa, sb) if sa < sb else (sb, sa))
+                    ra, rb = self.lfind(sa), self.lfind(sb)
+                    if ra != rb:
+                        self.luf[ra] = rb
+
+    def note_const(self, e, c):
+        if abs(c) >= (1 << 40):
+            return
+        for s_, _ in e[1]:
+            self.sym_consts.setdefault(s_, set()).add(c)
+
+    def thresholds(self, m, st_in, backs):
+        """constants worth trying as bounds of place m: those its value (or anything it was compared with /
+        derived from) is compared against, its entry value, unit bounds known on entry; each +-1"""
+        syms = set()
+        ks = set([0, 1])
+        for stx in [st_in] + list(backs):
+            v = self.read(stx, m[0], m[1])
+            if v[0] == "i":
+                syms.update(s_ for s_, _ in v[1][1])
+                if not v[1][1]:
+                    ks.add(v[1][0])
+        roots = set(self.lfind(s_) for s_ in syms)
+        for s_, cs in self.sym_consts.items():
+            if s_ in syms or self.lfind(s_) in roots:
+                ks |= cs
+        for c in st_in.ctx.cons + st_in.ctx.hyps:
+            if len(c[1]) == 1 and abs(c[1][0][1]) == 1 and (c[1][0][0] in syms or self.lfind(c[1][0][0]) in roots):
+                ks.add(-c[0] * c[1][0][1] if c[1][0][1] == 1 else c[0])
+        for s_ in list(syms):
+            r = self.ranges.get(s_)
+        out = set()
+        for k in ks:
+            if abs(k) < (1 << 40):
+                out.update((k - 1, k, k + 1))
+        return sorted(out)
 
     def components(self, st):
         """union-find over the symbols of a state's constraints and of the global relevance links"""
         uf = getattr(st.ctx, "_uf", None)
-        if uf is not None and uf[0] == (len(st.ctx.cons), len(st.ctx.neqs), len(self.links)):
+        if uf is not None and uf[0] == (len(st.ctx.cons), len(st.ctx.hyps), len(st.ctx.neqs), len(self.links)):
             return uf[1]
         parent = {}
 
@@ -1467,7 +1602,7 @@ class Engine:
                 x = parent[x]
             return x
 
-        for c in st.ctx.cons + st.ctx.neqs:
+        for c in st.ctx.cons + st.ctx.hyps + st.ctx.neqs:
             ss = [s_ for s_, _ in c[1]]
             for s_ in ss:
                 parent.setdefault(s_, s_)
@@ -1483,7 +1618,7 @@ class Engine:
                 parent[ra] = rb
         comp = {s_: find(s_) for s_ in list(parent)}
         try:
-            st.ctx._uf = ((len(st.ctx.cons), len(st.ctx.neqs), len(self.links)), comp)
+            st.ctx._uf = ((len(st.ctx.cons), len(st.ctx.hyps), len(st.ctx.neqs), len(self.links)), comp)
         except AttributeError:
             pass
         return comp
@@ -1614,6 +1749,12 @@ class Engine:
         other = t["otherwise"]
         is_bool = ti is not None and self.prog.types[ti]["k"] == "bool"
         out = []
+        node = (fr.id, bb)
+
+        def note(tb, cond):
+            if self.record:
+                self.edge_conds.setdefault((node, (fr.id, tb)), []).append(cond)
+
         if v[0] == "b":
             b = v[1]
             # bool switch: targets typically [(0, bbF)] otherwise bbT
@@ -1622,12 +1763,18 @@ class Engine:
                 self.assume_bool(s2, b, bool(val))
                 if not self.dead(s2, b, bool(val), st):
                     out.append((tb, s2))
+                    note(tb, ("bool", b, bool(val)))
+                    for h in self.edge_hooks:
+                        h(self, s2, fr, bb, tb, ("bool", b, bool(val)))
             s2 = st
             vals = [val for val, _ in targets]
             if is_bool and len(vals) == 1:
                 self.assume_bool(s2, b, not bool(vals[0]))
                 if not self.dead(s2, b, not bool(vals[0]), None):
                     out.append((other, s2))
+                    note(other, ("bool", b, not bool(vals[0])))
+                    for h in self.edge_hooks:
+                        h(self, s2, fr, bb, other, ("bool", b, not bool(vals[0])))
             elif len(vals) < 2:
                 out.append((other, s2))
             if self.record:
@@ -1638,9 +1785,12 @@ class Engine:
         if c is not None:
             for val, tb in targets:
                 if val == c:
+                    note(tb, ("const", c))
                     return [(tb, st)]
+            note(other, ("const", c))
             return [(other, st)]
         for val, tb in targets:
+            self.note_const(e, val)
             s2 = st.fork()
             cons = [lin.le(e, lin.const(val)), lin.le(lin.const(val), e)]
             self.fm_calls += 1
@@ -1649,6 +1799,9 @@ class Engine:
             for cc in cons:
                 s2.ctx.add(cc)
             out.append((tb, s2))
+            note(tb, ("eq", e, val))
+            for h in self.edge_hooks:
+                h(self, s2, fr, bb, tb, ("eq", e, val))
         # otherwise
         s2 = st
         for val, _ in targets:
@@ -1667,6 +1820,9 @@ class Engine:
                 feasible = False
         if feasible:
             out.append((other, s2))
+            note(other, ("neq", e, tuple(val for val, _ in targets)))
+            for h in self.edge_hooks:
+                h(self, s2, fr, bb, other, ("neq", e, tuple(val for val, _ in targets)))
         if self.record:
             self.switch_log.append(((fr.id, bb), v, [x[0] for x in out]))
         return out
@@ -1744,6 +1900,8 @@ class Engine:
             self.write_subtree(st, droot, dpath, out, node)
             return [(t["t"], st)] if t.get("t") is not None else []
         # std / dyn / unresolved: model
+        for h in self.call_hooks:
+            h(self, st, fr, bb, base, args, ev, t)
         outs = None
         if self.models is not None:
             outs = self.models.apply(self, st, fr, bb, t, base, name, args, (droot, dpath, dti), ev, kind)
@@ -1751,6 +1909,8 @@ class Engine:
             outs = self.default_call(st, fr, bb, t, base, args, (droot, dpath, dti), ev, kind)
         res = []
         for s2 in outs:
+            for h in self.post_call_hooks:
+                h(self, s2, fr, bb, base, args, ev, t)
             if t.get("t") is not None:
                 res.append((t["t"], s2))
         return res
@@ -1964,14 +2124,14 @@ class Engine:
         cand = []
         seen = set()
         for o in ss:
-            for c in o.ctx.cons:
+            for c in o.ctx.cons + o.ctx.hyps:
                 if c not in seen:
                     seen.add(c)
                     cand.append(c)
         keep = []
         budget = 400
         for c in cand:
-            if all(c in o.ctx.cons for o in ss):
+            if all((c in o.ctx.cons or c in o.ctx.hyps) for o in ss):
                 keep.append(c)
                 continue
             if budget <= 0:
@@ -1981,6 +2141,7 @@ class Engine:
             if all(o.ctx.entails(c) for o in ss):
                 keep.append(c)
         base.ctx.cons = keep
+        base.ctx.hyps = []
         base.ctx.neqs = [c for c in base.ctx.neqs if all(c in o.ctx.neqs for o in ss[1:])]
         # relate joined integer places to other integer places of the return value (template x - y <= k)
         if changed:
